@@ -161,16 +161,15 @@ theorem SameEnv.trans {a b c : Node} (h1 : SameEnv a b) (h2 : SameEnv b c) : Sam
 /-- Only the item of key `k` may differ (and the in-memory bookkeeping of the algorithms). -/
 structure OnlyKey (k : Key) (n n' : Node) : Prop where
   env : SameEnv n n'
-  idk : n'.idk = n.idk
   other : ∀ k', k' ≠ k → n'.store.get k' = n.store.get k'
 
-theorem OnlyKey.refl (k : Key) (n : Node) : OnlyKey k n n := ⟨SameEnv.refl n, rfl, fun _ _ => rfl⟩
+theorem OnlyKey.refl (k : Key) (n : Node) : OnlyKey k n n := ⟨SameEnv.refl n, fun _ _ => rfl⟩
 
 theorem OnlyKey.trans {k : Key} {a b c : Node} (h1 : OnlyKey k a b) (h2 : OnlyKey k b c) : OnlyKey k a c :=
-  ⟨h1.env.trans h2.env, h2.idk.trans h1.idk, fun k' hk => (h2.other k' hk).trans (h1.other k' hk)⟩
+  ⟨h1.env.trans h2.env, fun k' hk => (h2.other k' hk).trans (h1.other k' hk)⟩
 
 theorem onlyKey_setStore (k : Key) (n : Node) (s : Store) (h : ∀ k', k' ≠ k → s.get k' = n.store.get k') :
-    OnlyKey k n { n with store := s } := ⟨⟨rfl, rfl, rfl, rfl⟩, rfl, h⟩
+    OnlyKey k n { n with store := s } := ⟨⟨rfl, rfl, rfl, rfl⟩, h⟩
 
 theorem onlyKey_setItem (k : Key) (n : Node) (it : Item) : OnlyKey k n (n.setItem k it) :=
   onlyKey_setStore k n _ (fun k' hk => Store.get_set_ne _ _ _ _ hk)
@@ -179,11 +178,11 @@ theorem onlyKey_erase (k : Key) (n : Node) : OnlyKey k n { n with store := n.sto
   onlyKey_setStore k n _ (fun k' hk => Store.get_erase_ne _ _ _ hk)
 
 theorem onlyKey_spray (k : Key) (n : Node) (sp : List (Key × SprayMeta)) : OnlyKey k n { n with spray := sp } :=
-  ⟨⟨rfl, rfl, rfl, rfl⟩, rfl, fun _ _ => rfl⟩
+  ⟨⟨rfl, rfl, rfl, rfl⟩, fun _ _ => rfl⟩
 
 theorem onlyKey_attempts (k : Key) (n : Node) (a : List ((Nat × Nat) × Nat)) :
     OnlyKey k n { n with attempts := a } :=
-  ⟨⟨rfl, rfl, rfl, rfl⟩, rfl, fun _ _ => rfl⟩
+  ⟨⟨rfl, rfl, rfl, rfl⟩, fun _ _ => rfl⟩
 
 /-! ## modItem / modRt -/
 
@@ -305,12 +304,13 @@ structure RtStep (k : Key) (n n' : Node) : Prop where
     (it.pending = true → it'.pending = true)
   absent : n.store.get k = none → n'.store.get k = none
   keys : n'.store.keys = n.store.keys
+  idk : n'.idk = n.idk
 
 theorem RtStep.refl (k : Key) (n : Node) : RtStep k n n :=
-  ⟨OnlyKey.refl k n, fun it h => ⟨it, h, rfl, rfl, rfl, rfl, id⟩, id, rfl⟩
+  ⟨OnlyKey.refl k n, fun it h => ⟨it, h, rfl, rfl, rfl, rfl, id⟩, id, rfl, rfl⟩
 
 theorem RtStep.trans {k : Key} {a b c : Node} (h1 : RtStep k a b) (h2 : RtStep k b c) : RtStep k a c := by
-  refine ⟨h1.only.trans h2.only, ?_, fun h => h2.absent (h1.absent h), h2.keys.trans h1.keys⟩
+  refine ⟨h1.only.trans h2.only, ?_, fun h => h2.absent (h1.absent h), h2.keys.trans h1.keys, h2.idk.trans h1.idk⟩
   intro it h
   rcases h1.item it h with ⟨it1, g1, b1, e1, c1, r1, p1⟩
   rcases h2.item it1 g1 with ⟨it2, g2, b2, e2, c2, r2, p2⟩
@@ -320,14 +320,15 @@ theorem RtStep.trans {k : Key} {a b c : Node} (h1 : RtStep k a b) (h2 : RtStep k
 structure KStep (k : Key) (n n' : Node) : Prop where
   only : OnlyKey k n n'
   wf : WF n → WF n'
+  idk : n'.idk = n.idk
 
-theorem KStep.refl (k : Key) (n : Node) : KStep k n n := ⟨OnlyKey.refl k n, id⟩
+theorem KStep.refl (k : Key) (n : Node) : KStep k n n := ⟨OnlyKey.refl k n, id, rfl⟩
 
 theorem KStep.trans {k : Key} {a b c : Node} (h1 : KStep k a b) (h2 : KStep k b c) : KStep k a c :=
-  ⟨h1.only.trans h2.only, fun h => h2.wf (h1.wf h)⟩
+  ⟨h1.only.trans h2.only, fun h => h2.wf (h1.wf h), h2.idk.trans h1.idk⟩
 
 theorem RtStep.kstep {k : Key} {n n' : Node} (h : RtStep k n n') : KStep k n n' := by
-  refine ⟨h.only, fun w => ⟨?_, by rw [h.keys]; exact w.nodup⟩⟩
+  refine ⟨h.only, fun w => ⟨?_, by rw [h.keys]; exact w.nodup⟩, h.idk⟩
   intro k' it' hg
   by_cases hk : k' = k
   · subst hk
@@ -365,32 +366,36 @@ theorem wf_erase {n : Node} (w : WF n) (k : Key) : WF { n with store := n.store.
     exact w.keyed _ _ hg
 
 theorem push_kstep (b : Bundle) (n : Node) : KStep b.key n (push b n) := by
-  refine ⟨push_only b n, fun w => ?_⟩
-  unfold push
-  cases n.store.get b.key with
-  | none => exact wf_setItem w _ _ rfl
-  | some _ => exact w
+  refine ⟨push_only b n, fun w => ?_, ?_⟩
+  · unfold push
+    cases n.store.get b.key with
+    | none => exact wf_setItem w _ _ rfl
+    | some _ => exact w
+  · unfold push Node.setItem
+    cases n.store.get b.key <;> rfl
 
 theorem sync_kstep (d : Desc) (n : Node) (hb : ∀ b, d.bndl = some b → b.key = d.key) :
     KStep d.key n (sync d n) := by
-  refine ⟨sync_only d n hb, fun w => ?_⟩
-  unfold sync
-  cases h : n.store.get d.key with
-  | none =>
-    cases hd : d.bndl with
-    | none => exact w
-    | some b => exact (push_kstep b n).wf w
-  | some it =>
-    simp only
-    split
-    · exact wf_erase w _
-    · exact wf_setItem w _ _ (w.keyed _ it h)
+  refine ⟨sync_only d n hb, fun w => ?_, ?_⟩
+  · unfold sync
+    cases h : n.store.get d.key with
+    | none =>
+      cases hd : d.bndl with
+      | none => exact w
+      | some b => exact (push_kstep b n).wf w
+    | some it =>
+      simp only
+      split
+      · exact wf_erase w _
+      · exact wf_setItem w _ _ (w.keyed _ it h)
+  · unfold sync push Node.setItem
+    repeat' (first | rfl | split | dsimp only)
 
 theorem rtStep_modItem (k : Key) (f : Item → Item) (n : Node)
     (hf : ∀ it, (f it).bundle = it.bundle ∧ (f it).expires = it.expires ∧ (f it).cons = it.cons ∧
       (f it).receiver = it.receiver ∧ (it.pending = true → (f it).pending = true)) :
     RtStep k n (modItem k f n) := by
-  refine ⟨modItem_only k f n, ?_, ?_, ?_⟩
+  refine ⟨modItem_only k f n, ?_, ?_, ?_, ?_⟩
   · intro it h
     refine ⟨f it, by simp [modItem_get, h], (hf it).1, (hf it).2.1, (hf it).2.2.1, (hf it).2.2.2.1, (hf it).2.2.2.2⟩
   · intro h
@@ -400,16 +405,18 @@ theorem rtStep_modItem (k : Key) (f : Item → Item) (n : Node)
     | none => rfl
     | some it =>
       simp only [Node.setItem, Store.keys_set, Store.mem_keys_of_get h, if_true]
+  · unfold modItem Node.setItem
+    cases n.store.get k <;> rfl
 
 theorem rtStep_modRt (k : Key) (f : Routing → Routing) (n : Node) : RtStep k n (modRt k f n) :=
   rtStep_modItem k _ n (fun _ => ⟨rfl, rfl, rfl, rfl, id⟩)
 
 theorem rtStep_spray (k : Key) (n : Node) (sp : List (Key × SprayMeta)) : RtStep k n { n with spray := sp } :=
-  ⟨onlyKey_spray k n sp, fun it h => ⟨it, h, rfl, rfl, rfl, rfl, id⟩, id, rfl⟩
+  ⟨onlyKey_spray k n sp, fun it h => ⟨it, h, rfl, rfl, rfl, rfl, id⟩, id, rfl, rfl⟩
 
 theorem rtStep_attempts (k : Key) (n : Node) (a : List ((Nat × Nat) × Nat)) :
     RtStep k n { n with attempts := a } :=
-  ⟨onlyKey_attempts k n a, fun it h => ⟨it, h, rfl, rfl, rfl, rfl, id⟩, id, rfl⟩
+  ⟨onlyKey_attempts k n a, fun it h => ⟨it, h, rfl, rfl, rfl, rfl, id⟩, id, rfl, rfl⟩
 
 /-- Case analysis for functions that are a tree of `match`/`if` with routing-only leaves. -/
 macro "rt_auto" : tactic =>
@@ -487,5 +494,28 @@ theorem sendAll_rt (env : Env) (d : Desc) (b : Bundle) : ∀ (ps : List Peer) (n
     split
     · exact rtStep_attempts _ n _
     · exact (rtStep_attempts _ n _).trans (reportFailure_rt d p _)
+
+
+theorem modItem_idk (k : Key) (f : Item → Item) (n : Node) : (modItem k f n).idk = n.idk := by
+  unfold modItem; cases n.store.get k <;> rfl
+
+theorem notifyNew_idk (k : Key) (b : Bundle) (n : Node) : (notifyNew k b n).idk = n.idk := by
+  unfold notifyNew modRt
+  repeat' (first | rfl | exact modItem_idk _ _ _ | split | dsimp only)
+
+@[simp] theorem setIdk_store (n : Node) (x : List ((Eid × Nat) × Nat)) : (n.setIdk x).store = n.store := rfl
+@[simp] theorem setIdk_cfg (n : Node) (x : List ((Eid × Nat) × Nat)) : (n.setIdk x).cfg = n.cfg := rfl
+@[simp] theorem setIdk_now (n : Node) (x : List ((Eid × Nat) × Nat)) : (n.setIdk x).now = n.now := rfl
+@[simp] theorem setIdk_peers (n : Node) (x : List ((Eid × Nat) × Nat)) : (n.setIdk x).peers = n.peers := rfl
+@[simp] theorem setIdk_evNo (n : Node) (x : List ((Eid × Nat) × Nat)) : (n.setIdk x).evNo = n.evNo := rfl
+@[simp] theorem setIdk_idk (n : Node) (x : List ((Eid × Nat) × Nat)) : (n.setIdk x).idk = x := rfl
+theorem setIdk_self (n : Node) : n.setIdk n.idk = n := rfl
+
+theorem wf_idk {n : Node} (w : WF n) (x : List ((Eid × Nat) × Nat)) : WF (n.setIdk x) :=
+  ⟨w.keyed, w.nodup⟩
+
+theorem sync_idk (d : Desc) (n : Node) : (sync d n).idk = n.idk := by
+  unfold sync push Node.setItem
+  repeat' (first | rfl | split | dsimp only)
 
 end Dtn7.Node
